@@ -127,7 +127,12 @@ func C20_Gaps() {
 	g1 := verif.Choice("gap1", n+1)
 	g2 := -1
 	if verif.Tier() == 1 {
-		g2 = verif.Choice("gap2", n+1)
+		// thorough: a second varied gap, one of the three gaps that follow the
+		// first (all pairs of gaps did not finish within the thorough budget)
+		g2 = g1 + 1 + verif.Choice("gap2", 3)
+		if g2 > n {
+			g2 = -1
+		}
 	}
 	sep1 := c20Separator("sep1")
 	sep2 := ""
